@@ -12,9 +12,30 @@ static unsigned char *keep(unsigned char *k)
     n->k = k; n->next = kept; kept = n;
     return k;
 }
+/* Binary keys: when an earlier kept key buffer starts with the bytes of this key, hand the table the SAME
+ * address with the shorter length (prefix-related keys sharing one buffer, as a caller slicing one record
+ * would do); returns NULL when no kept buffer has this prefix. */
+typedef struct { unsigned char *k; size_t len; } klen_t;
+static klen_t klens[65536];
+static int nklens;
+static unsigned char *shared_prefix(const unsigned char *k, size_t len)
+{
+    int i;
+    if (len == 0) return NULL;
+    for (i = 0; i < nklens; i++)
+        if (klens[i].len >= len && memcmp(klens[i].k, k, len) == 0)
+            return klens[i].k;
+    return NULL;
+}
+static void remember(unsigned char *k, size_t len)
+{
+    if (nklens < 65536) { klens[nklens].k = k; klens[nklens].len = len; nklens++; }
+}
+
 static void drop_all(void)
 {
     while (kept) { keep_t *n = kept->next; free(kept->k); free(kept); kept = n; }
+    nklens = 0;
 }
 
 typedef struct { char *s; } ent_t;
@@ -57,8 +78,9 @@ int main(void)
             bin = atoi(w[3]);
             printf("size %d\n", h->size);
         } else if (n == 3 && (!strcmp(w[0], "enter") || !strcmp(w[0], "replace"))) {
-            unsigned char *k = keep(vf_parse_hex(w[1], &len));
+            unsigned char *k = vf_parse_hex(w[1], &len), *sh = bin ? shared_prefix(k, len) : NULL;
             long v = atol(w[2]);
+            if (sh) { free(k); k = sh; } else { keep(k); remember(k, len); }
             void *r;
             if (w[0][0] == 'e')
                 r = bin ? hash_table_enter_bkey(h, (char *)k, len, (void *)(size_t)v)
@@ -68,14 +90,14 @@ int main(void)
                         : hash_table_replace(h, (char *)k, (void *)(size_t)v);
             printf("v %ld\n", (long)(size_t)r);
         } else if (n == 2 && !strcmp(w[0], "delete")) {
-            unsigned char *k = vf_parse_hex(w[1], &len);
-            void *r = bin ? hash_table_delete_bkey(h, (char *)k, len) : hash_table_delete(h, (char *)k);
+            unsigned char *k = vf_parse_hex(w[1], &len), *sh = bin ? shared_prefix(k, len) : NULL;
+            void *r = bin ? hash_table_delete_bkey(h, (char *)(sh ? sh : k), len) : hash_table_delete(h, (char *)k);
             if (r) printf("o %ld\n", (long)(size_t)r); else printf("o none\n");
             free(k);
         } else if (n == 2 && !strcmp(w[0], "lookup")) {
-            unsigned char *k = vf_parse_hex(w[1], &len);
+            unsigned char *k = vf_parse_hex(w[1], &len), *sh = bin ? shared_prefix(k, len) : NULL;
             void *val = NULL;
-            int rv = bin ? hash_table_lookup_bkey(h, (char *)k, len, &val) : hash_table_lookup(h, (char *)k, &val);
+            int rv = bin ? hash_table_lookup_bkey(h, (char *)(sh ? sh : k), len, &val) : hash_table_lookup(h, (char *)k, &val);
             if (rv == 0) printf("o %ld\n", (long)(size_t)val); else printf("o none\n");
             free(k);
         } else if (n == 1 && !strcmp(w[0], "empty")) {
